@@ -33,6 +33,8 @@ pub struct GenOpts {
     pub pure_fail: bool,
     /// positional and command at the same level
     pub pos_and_cmd: bool,
+    /// `construct!([cmd, .., words])`: commands and positionals as alternatives of one level
+    pub cmd_or_words: bool,
     /// custom help/version flag names
     pub custom_help: bool,
     /// chains of `adjacent()` commands (`cmd1 --a cmd2 --b cmd1 ..`)
@@ -64,6 +66,7 @@ impl GenOpts {
             env_only: true,
             pure_fail: false,
             pos_and_cmd: false,
+            cmd_or_words: false,
             custom_help: false,
             adjacent_cmds: false,
         }
@@ -92,6 +95,7 @@ impl GenOpts {
             env_only: true,
             pure_fail: false,
             pos_and_cmd: false,
+            cmd_or_words: false,
             custom_help: false,
             adjacent_cmds: false,
         }
@@ -769,6 +773,18 @@ impl<'a> Pool<'a> {
         if self.o.adjacent_cmds && !want_cmd && fields.len() < 10 && self.rng.chance(1, 5) {
             // a chain of adjacent commands ends the level (no positionals next to it)
             fields.push(self.adjacent_command_chain());
+            let mut o = OptSpec::plain(Spec::Seq(fields));
+            self.info(&mut o, id);
+            return o;
+        }
+        if want_cmd && self.o.cmd_or_words && self.rng.chance(1, 4) {
+            let n = self.rng.range(1, 2);
+            let mut alts: Vec<Spec> = (0..n).map(|_| self.command(depth - 1)).collect();
+            let ps = self.positionals(self.o.max_pos);
+            if !ps.is_empty() {
+                alts.push(Spec::Seq(ps));
+            }
+            fields.push(Spec::Alt(alts));
             let mut o = OptSpec::plain(Spec::Seq(fields));
             self.info(&mut o, id);
             return o;
